@@ -720,26 +720,86 @@ pub fn renamed_case(seed: u64, l: &mut Local) {
     }
 }
 
+/// P1 after a lost simultaneous-probe comparison (the scenarios of C08 part T, judged for this property): the
+/// probes sent before do not count any more; the name is announced only after three more probes, 250 ms apart,
+/// and a further 250 ms.
+pub fn tiebreak_case(seed: u64, l: &mut Local) {
+    use crate::props::c08::{self, Claim, Verdict, Which};
+    let mut rng = Rng::new(seed);
+    let base = Claim { port: 80, txt: wire::txt_encode(&[(b"k".to_vec(), Some(b"v".to_vec()))]), host: "contested-host.local.".into(), v4: vec![[10, 0, 0, 5]], v6: vec![] };
+    let x = if rng.chance(1, 2) { c08::random_claim(&mut rng, &base) } else { base.clone() };
+    let y = c08::random_claim(&mut rng, &x);
+    let which = if x.port != y.port || x.txt != y.txt { Which::Instance } else { Which::Host };
+    let (xs, ys) = (x.records_for(which), y.records_for(which));
+    if xs == ys {
+        return;
+    }
+    // the side whose data sort earlier is the one that has to yield
+    let (mine, theirs) = if c08::compare_sets(&xs, &ys) == std::cmp::Ordering::Less { (x, y) } else { (y, x) };
+    let jitter = *rng.pick(&[0u64, 7, 130, 249]);
+    let at = *rng.pick(&[1u64, 100, 249, 251, 400, 499, 501, 700, 749]);
+    l.evaluations += 1;
+    l.distinct.insert(util::fnv_str(&format!("tiebreak|{:?}|{:?}|{which:?}|{at}|{jitter}", mine, theirs)));
+    let r = c08::shown(seed, &mine, &theirs, which, at, jitter, false, false);
+    if r.died {
+        l.inconclusive.push(format!("daemon died in a C07 tiebreak scenario (seed {seed})"));
+        return;
+    }
+    if r.verdict == Verdict::Ignores {
+        // it went on on schedule: whether that was right is C08's question, the probes it sent stand
+        return;
+    }
+    l.act("P1-after-yield");
+    let step = if at < 250 { "after-first-probe" } else if at < 500 { "after-second-probe" } else { "after-third-probe" };
+    let wit = || json!({"scenario": format!("{which:?} name; the daemon's data sort before the other prober's; shown {at} ms after the first probe (jitter {jitter})"),
+                        "probes_after_the_lost_comparison_ms": r.probes_after, "announced_after_ms": r.announced_at, "trace": r.trace});
+    let Some(a) = r.announced_at else {
+        l.violate(Violation::new("P6", format!("P6/never-announced/after-lost-tiebreak/{step}"), "the other prober never announced, yet the service was not announced within four seconds of the lost comparison").with(wit()));
+        return;
+    };
+    let before: Vec<u64> = r.probes_after.iter().copied().filter(|t| *t < a).collect();
+    let ok = before.len() >= 3 && {
+        let p = &before[before.len() - 3..];
+        p[1] - p[0] >= 250 && p[2] - p[1] >= 250 && a >= p[2] + 250
+    };
+    if !ok {
+        l.violate(
+            Violation::new(
+                "P1",
+                format!("P1/announced-without-three-fresh-probes/after-lost-tiebreak/{step}"),
+                format!("after losing the comparison the daemon probed at {:?} ms and announced at {} ms: not three probes 250 ms apart and 250 ms more", before, a),
+            )
+            .with(wit()),
+        );
+    }
+}
+
 pub fn run(report: &Report, tier: &Tier) {
     report.set_rule(
         "registration scenarios on a simulated daemon: 1..3 interfaces (v4/v6/both, differing subnets), 1..4 services (with/without subtype, \
          shared or separate host names, fixed or automatic addresses, probing on/off), registered together or staggered by 0..1000 ms, \
          forced jitters {0,1,124,125,248,249} or seeded random, queries injected while probing, an interface appearing later; lazy and \
-         eager (10/50 ms) stepping; plus the conflict scenarios of C08 part R (a service renamed while probing): announced under its final names, twice, one second apart; distinct by scenario shape",
+         eager (10/50 ms) stepping; plus the conflict scenarios of C08 part R (a service renamed while probing): announced under its final names, twice, one second apart; and the scenarios of C08 part T on the side that has to yield: after the lost comparison three fresh probes 250 ms apart and 250 ms more before the announcement; distinct by scenario shape",
     );
     report.assume("oversleep stepping is excluded: the probe schedule presumes the daemon is woken when it asks to be (DESIGN §6 C07)");
     for r in ["P1", "P1-authority", "P1-host", "P2", "P3", "P4", "P5", "P5-content", "P6"] {
         report.floor(r, 20);
     }
     report.floor("P6-late-interface", 1);
+    report.floor("P1-after-yield", 20);
     let seed = report.seed;
     let n: u64 = if tier.thorough { 150_000 } else { 3_000 };
-    run_parallel(report, n, threads(), tier.budget_s * 0.9, |i, l| {
+    run_parallel(report, n, threads(), tier.budget_s * 0.8, |i, l| {
         run_one(util::mix(seed, 0xC07_0000 + i), l, i % 3 == 0);
     });
     // services renamed by a conflict while probing
     let n2: u64 = if tier.thorough { 30_000 } else { 600 };
     run_parallel(report, n2, threads(), tier.budget_s * 0.1, |i, l| {
         renamed_case(util::mix(seed, 0xC07_8000 + i), l);
+    });
+    // services that lost a simultaneous-probe comparison
+    let n3: u64 = if tier.thorough { 30_000 } else { 600 };
+    run_parallel(report, n3, threads(), tier.budget_s * 0.1, |i, l| {
+        tiebreak_case(util::mix(seed, 0xC07_9000 + i), l);
     });
 }
